@@ -437,4 +437,58 @@ example : (execSched .fixed wMdl wCalls [0, 1] (initSys none wCalls)).pcs =
     [.planned [3], .planned [3, 5], .start] := by decide
 example : wCalls.map (fun k => runAlone .fixed wMdl k none) = [.ok, .ok, .okIds [0]] := by decide
 
+/-! ### The hypotheses of `c22_equals_sequential` are satisfiable -/
+
+def wCall0 : Call := { req := ⟨[(0, wv), (1, wv)], [2]⟩ }
+
+theorem wNeeded {i : Nat} (h : Needed wGraph [0, 1] [2] i) : i = 3 := by
+  induction h with
+  | root hmem _ hsrc =>
+    simp only [List.mem_singleton] at hmem
+    subst hmem
+    have : getSource wGraph 2 = some (3, { inputs := [some 0, some 1], outputs := [some 2] }) := by decide
+    rw [this] at hsrc
+    injection hsrc with hsrc
+    injection hsrc with h1 _
+    exact h1.symm
+  | @step x d p' xop pop' _ hxop hd hrc _ ih =>
+    subst ih
+    have : getOp wGraph 3 = some { inputs := [some 0, some 1], outputs := [some 2] } := by decide
+    rw [this] at hxop
+    injection hxop with hxop
+    subst hxop
+    have hd' : d ∈ [0, 1] := by simpa [opDeps, opInputs, wGraph] using hd
+    simp only [List.mem_cons, List.not_mem_nil, or_false] at hd'
+    rcases hd' with rfl | rfl <;> simp [rContains] at hrc
+
+theorem wPlan_unique {p : List Nat} (h : PlanOK wGraph false (resolvedNew wGraph wCall0.req.ids false) wCall0.req.outs p) :
+    p = [3] := by
+  have hr : resolvedNew wGraph wCall0.req.ids false = [0, 1] := by decide
+  have ho : wCall0.req.outs = [2] := rfl
+  rw [hr, ho] at h
+  have hall : ∀ i ∈ p, i = 3 := fun i hi => wNeeded (h.minimal i hi)
+  have hnd := h.nodup
+  have hout := h.outputs 2 (by simp)
+  match p, hall, hnd, hout with
+  | [], _, _, hout =>
+    exfalso
+    rcases hout with h1 | ⟨h1, _⟩
+    · revert h1; decide
+    · cases h1
+  | [a], hall, _, _ => rw [hall a (by simp)]
+  | a :: b :: rest, hall, hnd, _ =>
+    exfalso
+    have ha := hall a (by simp)
+    have hb := hall b (by simp)
+    subst ha; subst hb
+    simp at hnd
+
+/-- The hypotheses of `c22_equals_sequential` are met by a concrete call: the only valid plan for
+`[a,b] → [y]` on `wGraph` is `[3]`. -/
+example : PlanIndependent wMdl wCall0 := by
+  intro p p' hp hp'
+  rw [wPlan_unique hp, wPlan_unique hp']
+
+example : PlannerComplete wMdl wCall0 := fun _ => ⟨[3], by decide⟩
+
 end RtenVerif.PlanCache
